@@ -23,6 +23,7 @@ import (
 // the k-th attempt at a backend).
 type fwdParams struct {
 	DupPrepares     bool // some PREPAREs repeat the text of an earlier one
+	OddPrepares     bool // some PREPAREs are of valid statements the proxy's classifier cannot parse
 	ExoticErrors    bool // some scripted outcomes are ERROR responses the codec library cannot decode
 	SystemPrepares  bool // some system requests are PREPAREd and EXECUTEd instead of queried
 	TracedPrepares  bool // some PREPAREs ask for tracing
@@ -275,6 +276,18 @@ func (f *fwd) sendOne(i int) {
 			break
 		}
 		st := world.DrawStmt(ch, "?", "ks.t_"+tok)
+		if f.p.OddPrepares && ch.Choose("oddprepare", 5) == 4 {
+			// valid statements that the proxy's classifier cannot make sense of (it then treats them
+			// as not idempotent; they are prepared, cached and re-prepared like any other)
+			odd := []string{
+				"/* app=sim */ INSERT INTO ks.t_" + tok + " (k, v) VALUES (?, 1)",
+				"-- app=sim\nDELETE FROM ks.t_" + tok + " WHERE k = ?",
+				"TRUNCATE ks.t_" + tok,
+				"INSERT INTO ks.t_" + tok + " (k, v) VALUES (?, $$it's$$)",
+			}
+			st = world.Stmt{Text: odd[ch.Choose("oddpreparewhich", len(odd))], Idempotent: false}
+			f.w.Stat("probe.prepare_of_unclassifiable_statement")
+		}
 		ri.kind, ri.idem = "prepare", true
 		ri.specs = f.script(tok, c.Version)
 		var mod func(*frame.Frame)
